@@ -146,6 +146,9 @@ func vfNativeClock() uint32 {
 
 func vfPanicsOff() {}
 
+// vfStepBudget raises gse's per-path instruction budget (long concrete loops); no-op natively.
+func vfStepBudget(n int) {}
+
 // vfObserve records a value; gse evaluates the same term under the model and the
 // check compares the two (translator validation).
 func vfObserve(label string, v int) {
